@@ -139,6 +139,9 @@ def pspec(i, used, torder, alpha="full"):
     s["meas"] = SYM if "meas" in used else ["m", "n", "m", "n"][i % 4]
     s["tags"] = {"k": TAG_ALPHAS[alpha]} if "tag" in used else dict(FIXED_TAGS[i % 4])
     s["fields"] = {"f": "opt"} if "field" in used else dict(FIXED_FIELDS[i % 4])
+    if i % 2 == 0:  # keys that contain a dot (select("tags.d.t") must address the key "d.t")
+        s["tags"]["d.t"] = "dot%d" % i
+        s["fields"]["d.f"] = i
     return s
 
 
@@ -173,7 +176,7 @@ def h_hist(params):
         used = used | {"field"}
     if scen == "drop":
         used = used | {"meas"}
-    cfg = {"storage": params.get("storage", "mem"), "auto_index": params.get("ai", True), "csv_times": params.get("csv_times", 3), "floats": params.get("floats", False)}
+    cfg = {"storage": params.get("storage", "mem"), "auto_index": params.get("ai", True), "csv_times": params.get("csv_times", 3), "floats": params.get("floats", False), "meas_alpha": params.get("meas_alpha")}
     alpha = params.get("alpha", "full")
 
     def body(h):
@@ -181,6 +184,8 @@ def h_hist(params):
         for i in range(n):
             apply_op(h, ("ins", pspec(i, used, torder, alpha)))
             cnt += 1
+        if params.get("reindex_pre"):  # the scenario's operations run on a manually built, valid index
+            apply_op(h, ("reindex",))
         for op in ops:
             if op[0] == "ins":
                 op = ("ins", pspec(cnt, used, torder, alpha))
@@ -197,11 +202,44 @@ def h_hist(params):
         # an index that is valid but differs from a rebuild would answer SOME query wrongly
         h.check_inv("before reads")
         qd = h.q(qd0)
-        h.check_reads(qd, params.get("mfilter"))
+        h.check_reads(qd, params.get("mfilter"), select_keys=("time", "measurement", "tags.k", "fields.f", "tags.d.t", "fields.d.f"))
         if params.get("twin"):
             lpe.fail("reachability twin")
 
     run_path(cfg, body)
+
+
+def h_wide(params):
+    """10 points at fixed increasing times; tag k in {a,b} per point by boolean selector (which
+    positions match); one operation on the matching set, then reads.  Covers position-dependent
+    behaviour (first/last/adjacent/sparse positions, positions >= 8)."""
+    from ..hist import run_path as _rp
+
+    n = params.get("n", 10)
+    kind = params["kind"]
+    cfg = {"storage": params.get("storage", "mem"), "auto_index": params.get("ai", True), "stub": False}
+
+    def body(h):
+        sel = [lpe.sym_bool(f"a{i}") for i in range(n)]
+        for i in range(n):
+            apply_op(h, ("ins", {"time": 1_000_000_000_000_000 + i * 1_000_000, "meas": "mn"[i % 2] if params.get("two_meas") else "m", "tags": {"k": "a" if sel[i] else "b"}, "fields": {"f": i}}))
+        if params.get("reindex_pre"):
+            apply_op(h, ("reindex",))
+        qa = ("tag", "k", "==", "a")
+        if kind == "rm":
+            apply_op(h, ("rm", qa, params.get("mfilter")))
+        elif kind == "upd":
+            apply_op(h, ("upd", qa, {"fields": {"g": 1}}, params.get("mfilter")))
+        elif kind == "upd_tags":
+            apply_op(h, ("upd", ("field", "f", ">=", 5), {"tags": {"k": "a"}}))
+        h.check_contents(f"contents after {kind}")
+        h.check_inv(f"after {kind}")
+        h.check_reads(qa, params.get("mfilter"), what=f"reads after {kind}")
+        h.check_reads(("time", ">=", 1_000_000_000_000_000 + 4 * 1_000_000), None, what=f"time read after {kind}")
+        if params.get("twin"):
+            lpe.fail("reachability twin")
+
+    _rp(cfg, body)
 
 
 def _untuple(x):
@@ -210,7 +248,7 @@ def _untuple(x):
     return x
 
 
-HARNESS = {"h_hist": h_hist}
+HARNESS = {"h_hist": h_hist, "h_wide": h_wide}
 
 
 def _ob(oid, q, scenario, ai, reindex=False, storage="mem", budget=60, presets=None, **kw):
@@ -273,6 +311,19 @@ def obligations(tier):
                     obs.append(
                         _ob(f"hist/{scen}/{q_repr(q)}/{cname}/{to}", q, scen, ai, rx, torder=to, alpha="small" if thorough else "sel", budget=600 if thorough else 60, split_op=True)
                     )
+    # wide databases: 10 points, every subset of matching positions
+    for kind in ("read", "rm", "upd"):
+        for cname, ai, rx in CONFIGS[:2] + [("manual-pre", False, False)]:
+            obs.append({"id": f"wide/{kind}/{cname}", "harness": "h_wide", "params": {"kind": kind, "ai": ai, "reindex_pre": cname == "manual-pre", "n": 10 if thorough else 9}, "budget_s": 120 if not thorough else 600, "presets": {}})
+    # one measurement name a prefix of the other
+    for q in (B, ("not", C), ("noop", "tag")):
+        for mf in ("m", "mm"):
+            for cname, ai, rx in CONFIGS[:2]:
+                obs.append(_ob(f"mfilter-prefix/{mf}/{q_repr(q)}/{cname}", q, "ins", ai, rx, mfilter=mf, torder="ooo", alpha="sel", meas_alpha=["m", "mm"], also=["meas"]))
+    # operations executed on a manually built valid index (auto_index off, reindex BEFORE the operation)
+    for scen in ("rm", "rm_time", "upd", "rm_ins", "drop"):
+        for q in (B, ("time", ">=", SYM)):
+            obs.append(_ob(f"hist-manual-pre/{scen}/{q_repr(q)}", q, scen, False, False, reindex_pre=True, torder="sym", alpha="sel"))
     # measurement filter after index maintenance (remove / drop / update renumber positions)
     for scen in ("rm", "rm_ins", "drop", "upd", "rm_time"):
         for mf in ("m", "n"):
